@@ -181,6 +181,11 @@ void cmb_process_priority_set(struct cmb_process *pp, const int64_t pri)
             if (cmi_hashheap_is_enqueued(hp, key)) {
                 const double etime = cmi_hashheap_dkey(hp, key);
                 cmi_hashheap_reprioritize(hp, key, etime, pri);
+                if (!rgp->evaluate_all) {
+                    /* The front of the queue may have changed, and only the
+                     * front is ever evaluated: ring the bell for the new one */
+                    (void)cmb_resourceguard_signal(rgp);
+                }
             }
         }
 
